@@ -674,7 +674,7 @@ TIERS = {
     "thorough": {"runs": 60000, "sim_s": 900, "ctx": 192, "docs": 4000, "ctx_s": 500,
                  "sweep_pairs": 150, "sweep_stride": 1, "sweep_all_pairs": 12, "sweep_s": 800, "base_s": 400,
                  "sweep_double": 600, "sweep_opcode_pairs": 6,
-                 "depth_docs": 200, "depth_max": 220, "depth_s": 300},
+                 "depth_docs": 200, "depth_max": 220, "depth_s": 300, "knob_pairs": 8, "knob_s": 150},
 }
 
 
